@@ -1,7 +1,9 @@
 /-
-  Model of SOMEIPHeader.read over an asyncio.StreamReader: the reader is (buffer, eof);
-  `readexactly(n)` returns n bytes, blocks, or fails with asyncio.IncompleteReadError at eof.
-  The message reader is a two-phase machine (header, payload) pumped after every feed.
+  Model of SOMEIPHeader.read over an asyncio.StreamReader.  The reader is the sequence of unread bytes
+  plus the eof flag; `readexactly(n)` returns n bytes, blocks, or fails with asyncio.IncompleteReadError
+  at eof.  One `read()` = header (16 bytes, checked as soon as they are there) then payload.
+  (That the real coroutine has already taken the header out of the StreamReader while it waits for the
+  payload is not observable: it resumes exactly where it was.)
 -/
 import SomeipModel.Model.Header
 namespace Someip
@@ -13,41 +15,48 @@ inductive StreamEnd
   | parseError    -- someip.header.ParseError from the header checks
 deriving DecidableEq, Repr, Inhabited
 
-structure SRState where
-  buf : Bytes := []
-  pending : Option (Nat × Header) := none     -- header accepted, waiting for `size - 8` payload bytes
-  stop : Option StreamEnd := none
-deriving Repr, Inhabited
-
 def headerOf16 : Bytes → Except Err (Nat × Header)
   | s1 :: s0 :: m1 :: m0 :: l3 :: l2 :: l1 :: l0 :: c1 :: c0 :: e1 :: e0 :: pv :: iv :: mtb :: rcb :: _ =>
     Header.parseFields (u16 s1 s0) (u16 m1 m0) (u32 l3 l2 l1 l0) (u16 c1 c0) (u16 e1 e0) pv iv mtb rcb
   | _ => .error .incomplete
 
-/-- read as many messages as the buffer allows; `eof` says whether feed_eof() was called -/
+/-- outcome of one `SOMEIPHeader.read(reader)` on the unread bytes `buf` -/
+inductive ReadRes
+  | msg (h : Header) (rest : Bytes)   -- a complete message; `rest` stays unread
+  | blocked                           -- waiting for more data (no eof yet)
+  | ended (e : StreamEnd)             -- the read raised: eof (clean or inside a message) or ParseError
+deriving Repr, Inhabited
+
+def readOne (eof : Bool) (buf : Bytes) : ReadRes :=
+  if buf.length < 16 then
+    (if eof then .ended (if buf.isEmpty then .eofClean else .incomplete) else .blocked)
+  else
+    match headerOf16 buf with
+    | .error _ => .ended .parseError
+    | .ok (size, h) =>
+      if buf.length - 16 < size - 8 then (if eof then .ended .incomplete else .blocked)
+      else .msg { h with payload := (buf.drop 16).take (size - 8) } (buf.drop (16 + (size - 8)))
+
+structure SRState where
+  buf : Bytes := []
+  stop : Option StreamEnd := none
+deriving Repr, Inhabited
+
+/-- read as many messages as the unread bytes allow -/
 def pump (eof : Bool) : Nat → SRState → List Header × SRState
   | 0, s => ([], s)
   | fuel + 1, s =>
     if s.stop.isSome then ([], s) else
-    match s.pending with
-    | none =>
-      if 16 ≤ s.buf.length then
-        match headerOf16 s.buf with
-        | .error _ => ([], { buf := s.buf.drop 16, pending := none, stop := some .parseError })
-        | .ok (size, h) => pump eof fuel { s with buf := s.buf.drop 16, pending := some (size, h) }
-      else if eof then
-        ([], { buf := [], pending := none, stop := some (if s.buf.isEmpty then .eofClean else .incomplete) })
-      else ([], s)
-    | some (size, h) =>
-      if size - 8 ≤ s.buf.length then
-        let r := pump eof fuel { s with buf := s.buf.drop (size - 8), pending := none }
-        ({ h with payload := s.buf.take (size - 8) } :: r.1, r.2)
-      else if eof then ([], { buf := [], pending := none, stop := some .incomplete })
-      else ([], s)
+    match readOne eof s.buf with
+    | .msg h rest =>
+      let r := pump eof fuel { s with buf := rest }
+      (h :: r.1, r.2)
+    | .blocked => ([], s)
+    | .ended e => ([], { buf := [], stop := some e })
 
-def pumpAll (eof : Bool) (s : SRState) : List Header × SRState := pump eof (2 * s.buf.length + 3) s
+def pumpAll (eof : Bool) (s : SRState) : List Header × SRState := pump eof (s.buf.length + 1) s
 
-/-- feed the chunks one by one (pumping after each), then eof -/
+/-- feed the chunks one by one (the reading task runs after each `feed_data`), then eof -/
 def feedChunks : SRState → List Bytes → List Header × SRState
   | s, [] => ([], s)
   | s, c :: cs =>
